@@ -56,6 +56,7 @@ def cases(draw: T.Any) -> dict:
     model = draw(projgen.project_models(profile='intro', max_targets=8, allow_collisions=False))
     word = st.sampled_from(['a', 'b c', 'x=1', '--flag', 'é', '', '$HOME', 'q"q'])
     tests = []
+    dep_pool = [t for t in model['targets'] if t['kind'] in ('shared', 'library', 'both', 'exe', 'static')]
     for i in range(draw(st.integers(1, 3))):
         tests.append({
             'name': f'dump{i}', 'benchmark': draw(st.integers(0, 3)) == 0,
@@ -64,6 +65,9 @@ def cases(draw: T.Any) -> dict:
             'suite': draw(st.lists(st.sampled_from(['s1', 's2', 'slow']), max_size=2, unique=True)),
             'is_parallel': draw(st.booleans()), 'priority': draw(st.integers(-2, 5)), 'timeout': draw(st.sampled_from([None, 7, 60])),
             'workdir': draw(st.booleans()),
+            # targets of the project the test depends on (shared libraries among them make meson add their
+            # directories to LD_LIBRARY_PATH of the test - in the real run and, it must be the same, in the intro file)
+            'depends': [t['id'] for t in draw(st.lists(st.sampled_from(dep_pool), max_size=3, unique_by=lambda t: t['id']))] if dep_pool else [],
         })
     opts = {}
     if draw(st.booleans()):
@@ -87,7 +91,10 @@ def cases(draw: T.Any) -> dict:
         'man': draw(st.lists(st.sampled_from(['foo.1', 'bar.3']), max_size=2, unique=True)),
         'subdir': draw(st.sampled_from([None, ('tree', 'share/t', None, False), ('tree', 'share/t', 'devel', True)])),
     }
-    return {'model': model, 'tests': tests, 'opts': opts, 'prefix': prefix, 'install': inst}
+    # an extra executable / static library / custom target placed with build_subdir: (since 1.10: "places the build results
+    # in a subdirectory of the given name"), the value the intro filename must follow
+    bsd = draw(st.sampled_from([None, None, 'bsd nest', 'bsd_x/y z']))       # (names no model target can collide with)
+    return {'model': model, 'tests': tests, 'opts': opts, 'prefix': prefix, 'install': inst, 'build_subdir': bsd}
 
 
 def q(s: str) -> str:
@@ -113,7 +120,16 @@ def extras(c: dict, logdir: str) -> T.Tuple[T.List[str], T.Dict[str, str]]:
             kw.append(f"timeout: {t['timeout']}")
         if t['workdir']:
             kw.append('workdir: meson.current_source_dir()')
+        if t.get('depends'):
+            kw.append('depends: [' + ', '.join(t['depends']) + ']')
         lines.append(f"{'benchmark' if t['benchmark'] else 'test'}({q(t['name'])}, dump, {', '.join(kw)})")
+    if c.get('build_subdir'):
+        b = q(c['build_subdir'])
+        files['bsd_main.c'] = 'int main(void) { return 0; }\n'
+        files['bsd_lib.c'] = 'int bsd_lib(void) { return 0; }\n'
+        lines.append(f"executable('bsd_prog', 'bsd_main.c', build_subdir: {b})")
+        lines.append(f"static_library('bsd_lib', 'bsd_lib.c', build_subdir: {b})")
+        lines.append(f"custom_target('bsd_gen', output: 'bsd_gen.txt', command: [dump, '@OUTPUT@'], build_subdir: {b})")
     ins = c['install']
     for fn, d, tag in ins['data']:
         files[fn] = f'data {fn}\n'
@@ -264,6 +280,8 @@ def check_case(c: dict, workdir: str, ev: T.Optional[Evidence], sub: bool = Fals
                 want_names.append((t['name'], 'static library' if dl == 'static' else 'shared library'))
             else:
                 want_names.append((t['name'], tmap[t['kind']]))
+        if c.get('build_subdir'):
+            want_names += [('bsd_prog', 'executable'), ('bsd_lib', 'static library'), ('bsd_gen', 'custom')]
         if sorted(want_names) != names:
             return Failure('targets/set-differs', c, f'intro-targets.json lists {names}, the build definition declares {sorted(want_names)}')
         # ---- buildoptions ---------------------------------------------------
